@@ -130,6 +130,24 @@ theorem create_conf {cfg : Config} {r : Realm} (h : Realm.create cfg = some r) (
       · rw [h2]; intro c hc; cases hc
       · rw [h3]; intro c hc; cases hc
 
+theorem registerMeta_now : ∀ (ps : List String) (r : Realm), (registerMeta r ps).now = r.now
+  | [], _ => rfl
+  | p :: ps, r => by
+    unfold registerMeta
+    extract_lets o id
+    exact registerMeta_now ps _
+
+/-- a realm as `Realm.create` builds it starts at time 0 -/
+theorem create_now {cfg : Config} {r : Realm} (h : Realm.create cfg = some r) : r.now = 0 := by
+  unfold Realm.create at h
+  split at h
+  · cases h
+  · split at h
+    · cases h
+    · extract_lets b d at h
+      cases h
+      exact registerMeta_now _ _
+
 theorem Conf.foldl_leave {P : SessKey → Prop} : ∀ (cs : List Session) {r : Realm}, Conf P r →
     Conf P (cs.foldl (fun r c => r.leave c.key .shutdown) r)
   | [], _, h => h
@@ -148,7 +166,8 @@ def tickFold (ms : Nat) (l : List (String × Realm)) (acc : RObserved × Router)
       let (o, r) := p.2.step (.tick ms)
       (merge acc.1 o, acc.2.setRealm p.1 r)) acc
 
-theorem step_tick_eq (rt : Router) (ms : Nat) : rt.step (.tick ms) = tickFold ms rt.realms ({}, rt) := rfl
+theorem step_tick_eq (rt : Router) (ms : Nat) :
+    rt.step (.tick ms) = tickFold ms rt.realms ({}, { rt with now := rt.now + ms }) := rfl
 
 theorem tickFold_cons (ms : Nat) (p : String × Realm) (l : List (String × Realm)) (acc : RObserved × Router) :
     tickFold ms (p :: l) acc =
@@ -215,7 +234,7 @@ theorem step_tick_realms (rt : Router) (ms : Nat) (hn : (rt.realms.map (·.1)).N
     (rt.step (.tick ms)).2.sessRealm = rt.sessRealm ∧ (rt.step (.tick ms)).2.closed = rt.closed ∧
     (rt.step (.tick ms)).2.created = rt.created := by
   rw [step_tick_eq]
-  obtain ⟨h1, h2, h3, h4⟩ := tickFold_router ms rt.realms ({}, rt) hn
+  obtain ⟨h1, h2, h3, h4⟩ := tickFold_router ms rt.realms ({}, { rt with now := rt.now + ms }) hn
   refine ⟨?_, h2, h3, h4⟩
   rw [h1]
   apply List.map_congr_left
@@ -231,7 +250,7 @@ def ensureRealm (rt : Router) (name : String) : Router :=
   match rt.realm? name, rt.template with
   | none, some t =>
     match Realm.create { t with uri := name } with
-    | some r => { rt with realms := rt.realms ++ [(name, { r with pubCount := rt.created * 1000000 })],
+    | some r => { rt with realms := rt.realms ++ [(name, { r with pubCount := rt.created * 1000000, now := rt.now })],
                           created := rt.created + 1 }
     | none => rt
   | _, _ => rt
@@ -252,7 +271,7 @@ theorem ensureRealm_cases (rt : Router) (name : String) :
     rt.ensureRealm name = rt ∨
     (rt.realm? name = none ∧ ∃ t r, rt.template = some t ∧ Realm.create { t with uri := name } = some r ∧
       rt.ensureRealm name =
-        { rt with realms := rt.realms ++ [(name, { r with pubCount := rt.created * 1000000 })],
+        { rt with realms := rt.realms ++ [(name, { r with pubCount := rt.created * 1000000, now := rt.now })],
                   created := rt.created + 1 }) := by
   unfold ensureRealm
   split
@@ -298,7 +317,7 @@ theorem step_add (rt : Router) (cfg : Config) :
     rt.step (.addRealm cfg) =
       if rt.closed || rt.realms.any (fun p => p.1 == cfg.uri) then ({ refused := true }, rt)
       else match Realm.create cfg with
-        | some r => ({}, { rt with realms := rt.realms ++ [(cfg.uri, { r with pubCount := rt.created * 1000000 })],
+        | some r => ({}, { rt with realms := rt.realms ++ [(cfg.uri, { r with pubCount := rt.created * 1000000, now := rt.now })],
                                    created := rt.created + 1 })
         | none => ({ refused := true }, rt) := rfl
 
@@ -479,6 +498,51 @@ theorem Inv.step {rt : Router} (hi : Inv rt) (rop : ROp) (hw : rop.wf) : Inv (rt
           · rw [List.mem_singleton.mp hp]
             exact create_conf hr _
       · exact hi
+
+/-! ### the router's clock -/
+
+/-- the time an operation lets pass: `ms` for `.tick ms`, none for every other operation -/
+def _root_.Nexus.L2.ROp.elapsed : ROp → Nat
+  | .tick ms => ms
+  | _ => 0
+
+theorem tickFold_now (ms : Nat) : ∀ (l : List (String × Realm)) (acc : RObserved × Router),
+    (tickFold ms l acc).2.now = acc.2.now
+  | [], _ => rfl
+  | p :: l, acc => by rw [tickFold_cons]; exact tickFold_now ms l _
+
+theorem ensureRealm_now (rt : Router) (name : String) : (rt.ensureRealm name).now = rt.now := by
+  rcases ensureRealm_cases rt name with h | ⟨_, _, _, _, _, h⟩ <;> rw [h]
+
+/-- the router's clock is advanced by `.tick ms` (by `ms`) and by nothing else -/
+theorem step_now (rt : Router) (rop : ROp) : (rt.step rop).2.now = rt.now + rop.elapsed := by
+  cases rop with
+  | join name k l d ro c =>
+    cases hc : (rt.closed || name == "") with
+    | true => rw [step_join_refused hc]; rfl
+    | false =>
+      cases hr : (rt.ensureRealm name).realm? name with
+      | none => rw [step_join_none hc hr]; exact ensureRealm_now rt name
+      | some r => rw [step_join_some hc hr]; exact ensureRealm_now rt name
+  | sess k op =>
+    cases h : rt.realmOf k with
+    | none => rw [step_sess_unknown h]; rfl
+    | some A =>
+      cases hr : rt.realm? A with
+      | none => rw [step_sess_gone h hr]; rfl
+      | some r => rw [step_sess_some h hr]; rfl
+  | tick ms => rw [step_tick_eq, tickFold_now]; rfl
+  | rnd n => rfl
+  | close => rfl
+  | removeRealm A =>
+    cases hr : rt.realm? A with
+    | none => rw [step_remove_none hr]; rfl
+    | some r => rw [step_remove_some hr]; rfl
+  | addRealm cfg =>
+    rw [step_add]
+    split
+    · rfl
+    · split <;> rfl
 
 /-! ### lookups -/
 
